@@ -98,7 +98,7 @@ PAIRS = [("u8", "u8"), ("u8", "i8"), ("i8", "u8"), ("u8", "c8"), ("c8", "u8"), (
          ("u32", "u32"), ("u64", "i64"), ("i64", "u64"), ("u32", "f32"), ("f32", "u32"), ("f32", "i32"), ("f32", "f32"), ("f64", "f64"),
          ("f64", "u64"), ("u8", "e8"), ("e8", "e8"), ("p64", "p64"), ("w1", "u8"), ("w1", "w1"), ("w4", "u32"), ("w4", "w4"),
          ("u32", "conv"), ("conv", "conv"), ("cnt", "cnt"), ("cnt", "i32"), ("i32", "i16"), ("u64", "u32")]
-FORMS = ["vecL", "vecR", "listL", "listR", "arrL", "stdArrL", "genL", "ptr", "vecIt", "listIt", "moveIt", "revIt", "deqIt", "inIt"]
+FORMS = ["vecL", "vecR", "listL", "listR", "arrL", "stdArrL", "genL", "ptr", "vecIt", "listIt", "moveIt", "revIt", "deqIt", "inIt", "strideIt"]
 RANGE_FORMS = {"vecL", "vecR", "listL", "listR", "arrL", "stdArrL", "genL"}
 BITS = {"u8": 8, "i8": 8, "c8": 8, "b1": 1, "u16": 16, "i16": 16, "u32": 32, "i32": 32, "u64": 64, "i64": 64, "e8": 8, "w1": 8, "w4": 32,
         "conv": 32, "p64": 64}
@@ -348,10 +348,21 @@ def special_c20(tier, seed, replay):
                                             {"violation": (viol or ["C20:constructor-forms-program-aborted"])[0], "all": viol,
                                              "exit": r.returncode, "stderr": r.stderr[-1500:]})
                 res["violations"].append((path, ""))
+    # value types that can be neither copied nor moved, or only copied explicitly: construction in place, every read access,
+    # pop_back and clear must still be well-formed (compile-only translation unit outside the model's table)
+    pinned_ok = 0
+    if not replay:
+        r = runner.sh(["g++", "-std=c++17", "-fsyntax-only", "-I" + os.path.join(runner.REPO, "src"), os.path.join(runner.HARNESS, "pinned_cells.cpp")])
+        if r.returncode != 0:
+            path = write_replay_special("C20", tier, seed, "failing-input", ["pinned_cells.cpp"],
+                                        {"violation": "C20:read-access-ill-formed-for-a-type-that-is-not-implicitly-copyable", "compiler": r.stdout[-2500:]})
+            res["violations"].append((path, ""))
+        else:
+            pinned_ok = 4
     hist = {}
     for c in cells:
         hist[c[1] + "/" + c[2]] = hist.get(c[1] + "/" + c[2], 0) + 1
-    res["coverage"] = {"evaluations": len(cells) + forms_ok, "constructor_forms_run": forms_ok,
+    res["coverage"] = {"evaluations": len(cells) + forms_ok + pinned_ok, "constructor_forms_run": forms_ok, "pinned_type_cells": pinned_ok,
                        "distinct_nontrivial": len(set(cells)), "exhaustive": tier == "thorough",
                        "samples": [{"cell": list(c)} for c in cells[:4]], "ill_formed_cells": len(bad), "cells_per_category_value": hist}
     return res
